@@ -15,3 +15,8 @@ contract("C01", "hmc_take_step", native=False)(hmc_take_step)
 
 from contracts.mcmc_ensemble import ensemble_advance_walker
 contract("C01", "ensemble_advance_walker", native=False)(ensemble_advance_walker)
+
+# C01.hmc.reversible_proposal: imported from C07 (the structure of the trajectory map that generates the proposal)
+from contracts.c07_hamiltonian import standard_leapfrog_structure, bounded_leapfrog_structure
+contract("C01", "standard_leapfrog_structure", native=False)(standard_leapfrog_structure)
+contract("C01", "bounded_leapfrog_structure", native=False)(bounded_leapfrog_structure)
